@@ -178,6 +178,51 @@ func checkColumnsCode(w *World, r *Result) {
 			}
 			return true
 		})
+		// or the value is a parameter that every call site fills with <table>.Primary() for the very table it passes
+		if !primOK {
+			for _, pobj := range paramObjs(fi) {
+				if pobj.Name() != m[1] {
+					continue
+				}
+				// the table parameter the loop ranges over
+				tableParam := strings.TrimSuffix(fl.over, ".Columns")
+				ti := -1
+				for k, po := range paramObjs(fi) {
+					if po.Name() == tableParam {
+						ti = k
+					}
+				}
+				pi := paramIndex(fi, pobj)
+				sites, all := 0, ti >= 0
+				for _, caller := range sortedFuncs(w) {
+					if caller.Decl.Body == nil {
+						continue
+					}
+					ci := caller.Pkg.TypesInfo
+					ast.Inspect(caller.Decl.Body, func(x ast.Node) bool {
+						call, ok := x.(*ast.CallExpr)
+						if !ok || calleeOf(ci, call) != fi.Obj || pi >= len(call.Args) || ti >= len(call.Args) || ti < 0 {
+							return true
+						}
+						sites++
+						arg := call.Args[pi]
+						if id := identOf(arg); id != nil {
+							if dd := defsIn(ci, caller.Decl, objOf(ci, id)); len(dd) == 1 {
+								arg = dd[0]
+							}
+						}
+						pc, ok := ast.Unparen(arg).(*ast.CallExpr)
+						if !ok || !strings.HasSuffix(fullName(calleeOf(ci, pc)), "sql.Table).Primary") || es(pc.Fun.(*ast.SelectorExpr).X) != es(call.Args[ti]) {
+							all = false
+						}
+						return true
+					})
+				}
+				if sites > 0 && all {
+					primOK = true
+				}
+			}
+		}
 	}
 	r.cond(primOK, "AGR-C05e", fi.Name, "primary test compares the index into ta.Columns", pos, "`i != primaryIndex` with i ranging over ta.Columns and primaryIndex = ta.Primary()", "the index compared with Table.Primary() (condition `"+nopCond+"`) is not the range index over "+fl.over+" == ta.Columns: with a column filtered or reordered before the loop the wrong column is treated as the primary key")
 	// AGR-C05b: placeholders
